@@ -56,6 +56,11 @@ class Interp:
         self.max_loop = 10000  # iterations of one loop statement (a harness that feeds large inputs raises it)
         self.on_range = None  # on_range(interp, value) -> list: how a range-for visits a modelled container
 
+    def _char(self, b):
+        """an element of a std::string / string_view: plain char, signed on the platforms the library is built for (a client that compares
+        characters by order sets signed_char; the default keeps the byte value, which is what equality tests and unsigned casts see)"""
+        return b - 256 if getattr(self, 'signed_char', False) and b >= 128 else b
+
     def set_order(self, o):
         """the order in which an (unordered) set is visited: unspecified in C++, so a client may evaluate under both directions"""
         return sorted(o, reverse=bool(getattr(self, 'reverse_sets', False)))
@@ -480,7 +485,7 @@ class Interp:
                 if last in ('at', 'operator[]') and len(args) == 1:
                     i = self.eval(fn, S[args[0]], env)
                     if isinstance(i, int) and 0 <= i < len(o):
-                        return o[i]
+                        return self._char(o[i])
                     if last == 'operator[]' and i == len(o) and 'string_view' not in cs:
                         return 0
                     raise OutOfFragment('string index %r out of range (length %d) at %s' % (i, len(o), fn.loc(n)))
@@ -774,7 +779,7 @@ class Interp:
             i = self.eval(fn, S[n['args'][1]], env)
             if isinstance(o, (bytes, bytearray)) and isinstance(i, int):
                 if 0 <= i < len(o):
-                    return o[i]
+                    return self._char(o[i])
                 raise OutOfFragment('string index %r out of range (length %d) at %s' % (i, len(o), fn.loc(n)))
         if k == 'CXXOperatorCallExpr' and cs.startswith(('std::basic_string::', 'std::__cxx11::basic_string::', 'std::operator+')) and n.get('op') in ('+=', '+', '='):
             a = self.eval(fn, S[n['args'][0]], env)
@@ -1338,8 +1343,46 @@ def enum_values(db, name):
     return {e['name']: e['val'] for e in db.enum(name)['enumerators']}
 
 
-def reset_decision_table(db, f, loop):
-    """C11 r4: for (same?, CstType) -> set of callee names invoked by one iteration of ResetDependants' loop body."""
+class _FreeValue:
+    """A runtime quantity the summary does not model (the parse status of a dependant, ...): every comparison on it is a free boolean that the
+    client enumerates both ways."""
+    def __init__(self, key, assign, seen):
+        self.key, self.assign, self.seen = key, assign, seen
+
+    def _ask(self, what):
+        k = '%s %s' % (self.key, what)
+        if k not in self.seen:
+            self.seen.append(k)
+        return self.assign.get(k, True)
+
+    def __eq__(self, o):
+        return self._ask('== %s' % (o,))
+
+    def __ne__(self, o):
+        return not self._ask('== %s' % (o,))
+
+    def __bool__(self):
+        return self._ask('is true')
+
+    __hash__ = None
+
+
+class _FreeObj(Obj):
+    """the unmodelled result of a query about one entity: every field is a _FreeValue"""
+    def __init__(self, key, assign, seen):
+        super().__init__()
+        self._k, self._a, self._s = key, assign, seen
+
+    def __contains__(self, m):
+        return True
+
+    def __getitem__(self, m):
+        return _FreeValue('%s.%s' % (self._k, m), self._a, self._s)
+
+
+def reset_decision_table(db, f, loop, free=None):
+    """C11 r4: for (same?, CstType) -> set of callee names invoked by one iteration of ResetDependants' loop body.
+    free: (assignment, seen) -- queries of the core about the dependant that are not part of the vocabulary are free booleans."""
     cst = enum_values(db, 'ccl::semantic::CstType')
     lv = f.stmts[loop['loopvar']]['decls'][0]
     params = f.rec['params']
@@ -1363,6 +1406,8 @@ def reset_decision_table(db, f, loop):
                     return None
                 if n['k'] == 'CXXOperatorCallExpr' and n.get('op') in ('*', '->') and n.get('args'):
                     return Obj(__facet__='ptr')
+                if free is not None and callee.startswith(('ccl::semantic::RSCore::', 'ccl::semantic::RSModel::', 'ccl::semantic::Schema::')) and n['k'] == 'CXXMemberCallExpr':
+                    return _FreeObj(callee.split('::')[-1] + '(dependant)', free[0], free[1])
                 return NOT_HANDLED
             it = Interp(db, on_call=on_call)
             env = {params[0]['did']: 1, params[0]['name']: 1, lv['did']: 1 if same else 2, lv['name']: 1 if same else 2, 'this': Obj()}
